@@ -8,10 +8,15 @@
      after_move ... = the (directory, registry) right after move_to_cache
      WInv w : file names unique, sizes >= 0, and for BOTH managers: entry names unique and cache_size = sum of entry sizes
    PART 2, the registry caches of caching_context():
-     rstep chain_fix use_cache : chain_fix = true is the code as it is (setCollectionChain drops the summary cache, /repo d43ed5b);
-                                 chain_fix = false the code before that repair (refutation witness only);
-                                 use_cache = false = the same client without contexts
-     Coherent t cs : every cached chain definition / summary equals what the tables say now. *)
+     rstep fx use_cache : fx = as_coded is the code as it is; (mkFixes false true) the code before /repo d43ed5b
+                          (setCollectionChain left the summary cache alone); (mkFixes true false) the code before
+                          /repo 65fc362 (removeCollection left the summary cache alone; the cache is keyed by the
+                          collection's integer key and SQLite reuses the key of a removed collection);
+                          use_cache = false = the same client without contexts
+     an operation the registry refuses (unknown collection, removing a chain's child, ...) answers err_ans, changes nothing
+     wf_tables t   : keys unique; chains exist, are one level deep, their children exist
+     Coherent t cs : every cached chain definition / summary equals what the tables say now for the collection
+                     that has that name / key now, and every cached key is in use. *)
 From Coq Require Import ZArith NArith List Bool Lia.
 From V Require Import Model.Cache Proofs.CacheProofs Proofs.CacheProofsB Proofs.CacheProofsC.
 Import ListNotations.
@@ -137,55 +142,72 @@ Theorem cache_transparent : forall t cs ty c, wf_tables t -> Coherent t cs ->
 Proof. exact cache_transparent_p. Qed.
 Print Assumptions cache_transparent.
 
-(* coherence is an invariant of EVERY history (contexts, puts, chain edits, queries in any order), and every answer of
-   every history is the answer of the same client without caching contexts *)
-Theorem coherent_inv : forall h t cs, wf_tables t -> Coherent t cs -> wf_hist t h ->
-  Coherent (fst (fst (rrun true true (t, cs) h))) (snd (fst (rrun true true (t, cs) h))).
-Proof. intros. apply (run_transparent_p true h t cs); auto. Qed.
+(* coherence is an invariant of EVERY history -- contexts, registrations, removals (with key reuse), chain edits, puts and
+   queries in any order, well-formed or refused -- and every answer of every history is the answer of the same client
+   without caching contexts *)
+Theorem coherent_inv : forall h t cs, wf_tables t -> Coherent t cs ->
+  Coherent (fst (fst (rrun as_coded true (t, cs) h))) (snd (fst (rrun as_coded true (t, cs) h))).
+Proof. intros. apply (run_transparent_p h t cs); auto. Qed.
 Print Assumptions coherent_inv.
 
-Theorem run_transparent : forall h t, wf_tables t -> wf_hist t h ->
-  snd (rrun true true (t, no_caches) h) = snd (rrun true false (t, no_caches) h).
-Proof. intros. apply (run_transparent_p true h t no_caches); auto. apply coherent_none. Qed.
+Theorem run_transparent : forall h,
+  snd (rrun as_coded true (empty_tables, no_caches) h) = snd (rrun as_coded false (empty_tables, no_caches) h).
+Proof. intros. apply (run_transparent_p h empty_tables no_caches); [apply wf_empty | apply coherent_none]. Qed.
 Print Assumptions run_transparent.
 
-(* the same from a warm, coherent cache *)
-Theorem run_transparent_from_coherent : forall h t cs, wf_tables t -> Coherent t cs -> wf_hist t h ->
-  snd (rrun true true (t, cs) h) = snd (rrun true false (t, no_caches) h).
-Proof. intros. apply (run_transparent_p true h t cs); auto. Qed.
+(* the same from any well-formed registry and any warm, coherent cache *)
+Theorem run_transparent_from_coherent : forall h t cs, wf_tables t -> Coherent t cs ->
+  snd (rrun as_coded true (t, cs) h) = snd (rrun as_coded false (t, no_caches) h).
+Proof. intros. apply (run_transparent_p h t cs); auto. Qed.
 Print Assumptions run_transparent_from_coherent.
+
+Theorem wf_tables_inv : forall h t cs, wf_tables t -> Coherent t cs -> wf_tables (fst (fst (rrun as_coded true (t, cs) h))).
+Proof. intros. apply (run_transparent_p h t cs); auto. Qed.
+Print Assumptions wf_tables_inv.
 
 (* WITHOUT the invalidation of d43ed5b (setCollectionChain leaving the summary cache alone) a chain edit inside a context
    makes getCollectionSummary of the chain stale: removing that line breaks `coherent_inv` / `run_transparent` *)
-Definition chain_tables : tables := mkTables [(4, [0])] [(0, 0); (1, 1)] [(10, 0, 0); (11, 1, 1)].
-Definition chain_history : list rop := [Enter; QSummary 4; SetChain 4 [0; 1]; QSummary 4].
-Theorem coherence_refuted_without_fix :
-  wf_tables chain_tables /\ wf_hist chain_tables chain_history
-  /\ snd (rrun false true (chain_tables, no_caches) chain_history) = [[]; [0]; []; [0]]
-  /\ snd (rrun false false (chain_tables, no_caches) chain_history) = [[]; [0]; []; [0; 1]].
-Proof.
-  split; [|split; [|split; vm_compute; reflexivity]].
-  - intros c kids L m Hm. unfold chain_tables in L. cbn [chains lookup] in L. destruct (4 =? c); [|discriminate L]. injection L as <-.
-    destruct Hm as [<-|[]]. reflexivity.
-  - simpl. repeat split; auto; try discriminate. intros m [Hm|[Hm|[]]]; subst; reflexivity.
-Qed.
-Print Assumptions coherence_refuted_without_fix.
-
-(* the same history on the code as it is *)
-Theorem chain_edit_transparent :
-  snd (rrun true true (chain_tables, no_caches) chain_history) = [[]; [0]; []; [0; 1]]
-  /\ snd (rrun true false (chain_tables, no_caches) chain_history) = [[]; [0]; []; [0; 1]].
+Definition chain_history : list rop :=
+  [Register 0 false; Register 1 false; Register 4 true; SetChain 4 [0]; Put 10 0 0; Put 11 1 1;
+   Enter; QSummary 4; SetChain 4 [0; 1]; QSummary 4].
+Theorem coherence_refuted_without_chain_fix :
+  snd (rrun (mkFixes false true) true (empty_tables, no_caches) chain_history) = [[]; []; []; []; []; []; []; [0]; []; [0]]
+  /\ snd (rrun (mkFixes false true) false (empty_tables, no_caches) chain_history) = [[]; []; []; []; []; []; []; [0]; []; [0; 1]].
 Proof. vm_compute. split; reflexivity. Qed.
+Print Assumptions coherence_refuted_without_chain_fix.
+
+Theorem chain_edit_transparent :
+  snd (rrun as_coded true (empty_tables, no_caches) chain_history) = [[]; []; []; []; []; []; []; [0]; []; [0; 1]].
+Proof. vm_compute. reflexivity. Qed.
 Print Assumptions chain_edit_transparent.
 
+(* WITHOUT the invalidation of 65fc362 (removeCollection leaving the summary cache alone): the summary cached under the
+   key of a removed collection is handed to the next collection registered, which gets that key *)
+Definition key_reuse_history : list rop :=
+  [Enter; Register 2 false; Put 0 7 2; QSummary 2; RemoveColl 2; Register 3 false; QSummary 3].
+Theorem coherence_refuted_without_removal_fix :
+  snd (rrun (mkFixes true false) true (empty_tables, no_caches) key_reuse_history) = [[]; []; []; [7]; []; []; [7]]
+  /\ snd (rrun (mkFixes true false) false (empty_tables, no_caches) key_reuse_history) = [[]; []; []; [7]; []; []; []].
+Proof. vm_compute. split; reflexivity. Qed.
+Print Assumptions coherence_refuted_without_removal_fix.
+
+Theorem key_reuse_transparent :
+  snd (rrun as_coded true (empty_tables, no_caches) key_reuse_history) = [[]; []; []; [7]; []; []; []]
+  /\ key_of (fst (fst (rrun as_coded true (empty_tables, no_caches) [Register 2 false; RemoveColl 2; Register 3 false]))) 3 = Some 1.
+Proof. vm_compute. split; reflexivity. Qed.
+Print Assumptions key_reuse_transparent.
+
 (* a client sees its own completed write (the repaired invalidation of 72f8c65: the summary cache is dropped) *)
-Theorem own_write_visible : forall chain_fix use_cache t cs id ty run,
-  wf_tables t -> Coherent t cs -> lookup run (chains t) = None ->
-  In id (snd (rstep chain_fix use_cache (fst (rstep chain_fix use_cache (t, cs) (Put id ty run))) (QData ty run))).
+Theorem own_write_visible : forall use_cache t cs id ty run,
+  wf_tables t -> Coherent t cs -> key_of t run <> None -> lookup run (chains t) = None ->
+  In id (snd (rstep as_coded use_cache (fst (rstep as_coded use_cache (t, cs) (Put id ty run))) (QData ty run))).
 Proof. exact own_write_visible_p. Qed.
 Print Assumptions own_write_visible.
 
-(* non-vacuity: a history with a cached read, a put and a second read inside one context *)
+(* non-vacuity: a history with a cached read, a put, a removal, a re-registration and reads inside one context *)
 Example own_write_example :
-  snd (rrun true true (chain_tables, no_caches) [Enter; QData 1 0; Put 12 1 0; QData 1 0; QData 1 4]) = [[]; []; []; [12]; [12]].
+  snd (rrun as_coded true (empty_tables, no_caches)
+         [Register 0 false; Register 4 true; SetChain 4 [0]; Enter; QData 1 0; Put 12 1 0; QData 1 0; QData 1 4;
+          RemoveColl 0; SetChain 4 []; RemoveColl 0; Register 0 false; QData 1 0; QSummary 4])
+  = [[]; []; []; []; []; []; [12]; [12]; [9999]; []; []; []; []; []].
 Proof. vm_compute. reflexivity. Qed.
